@@ -1,6 +1,7 @@
 (* C01 and C04 for object graphs.  For EVERY graph of structs whose fields are integers of any
-   Go kind, booleans, strings, float64s, byte slices, timestamps and pointers to structs - any
-   number of objects, any depth, with arbitrary sharing and cycles - what the encoder model
+   Go kind, booleans, strings, float64s, byte slices, timestamps, pointers to structs and typed
+   lists of any of these (lists of lists, lists of pointers included) - any number of objects,
+   any depth, with arbitrary sharing of objects and cycles - what the encoder model
    writes, the decoder model reads back as the same graph: every object becomes one heap cell
    holding the same values under the same field names (a float64 as the same number, a
    timestamp to the millisecond), and every pointer becomes the index of the cell of the object
@@ -23,12 +24,16 @@ Open Scope Z_scope.
 Theorem C01_graph_roundtrip : forall nm F te tm ty_of v t st st',
   enm st = nm -> sgv nm F te tm ty_of t v -> cls_ok F (ecls st) -> write_data v st = Ok st' ->
   cls_ok F (ecls st') /\ enm st' = enm st /\ grows st st' /\
-  exists bs d cells, ebytes st' = ebytes st ++ bs /\ dg ty_of (erefs st) v d cells (erefs st') /\
+  exists bs d cells, ebytes st' = ebytes st ++ bs /\ (1 <= length bs)%nat /\ dg ty_of (erefs st) v d cells (erefs st') /\
     (small st' -> forall dst rest, Inv ty_of st dst ->
-       exists dst', Inv ty_of st' dst' /\ dheap dst' = dheap dst ++ cells /\ dtypes dst' = dtypes dst /\
+       exists dst', Inv ty_of st' dst' /\ dheap dst' = dheap dst ++ cells /\
        forall f, (need_d v <= f)%nat ->
+         (* as a struct field of Go type t *)
          R_rf (readers_at te tm f) t dst (bs ++ rest) = Ok (d, rest, dst') /\
-         (forall a ty fs, v = VStruct a ty fs -> R_rd (readers_at te tm f) dst (bs ++ rest) = Ok (d, rest, dst'))).
+         (* as a value on its own (top level, stream) *)
+         (forall a ty fs, v = VStruct a ty fs -> R_rd (readers_at te tm f) dst (bs ++ rest) = Ok (d, rest, dst')) /\
+         (* as an element of a list whose element type is t *)
+         (t <> TIface -> elem_step te (readers_at te tm f) t dst (bs ++ rest) = Ok (d, rest, dst'))).
 Proof. intros nm F te tm ty_of v. exact (graph_roundtrip nm F te tm ty_of v). Qed.
 Print Assumptions C01_graph_roundtrip.
 
@@ -102,6 +107,37 @@ Proof.
     + cbn; lia.
     + constructor; [constructor; unfold in_kind; cbn; lia|]. constructor; [constructor; repeat constructor; unfold valid_rune; lia|].
       constructor; [exact xsgv2|constructor].
+  - eexists. split; [vm_compute; reflexivity|]. split; [split; vm_compute; discriminate|].
+    eexists. split; vm_compute; reflexivity.
+Qed.
+
+(* ... and with a list field: &L{Vs: []int32{1, -2}} *)
+Definition yL : name := [76].
+Definition yty : name := [91; 93; 105; 110; 116; 51; 50].       (* "[]int32" *)
+Definition yltn : name := [91; 105; 110; 116].                  (* "[int" *)
+Definition ynm : namemap := [(yL, yL); (yty, yltn)].
+Definition ygfs : list (name * gtype) := [([86; 115], TSlice (TInt KInt32))].
+Definition yte : tenv := [(yL, ygfs)].
+Definition ytm : typmap := [(yL, TStruct yL); (yltn, TSlice (TInt KInt32))].
+Definition yF (c : name) : list name := [[118; 115]].
+Definition yv : gval := VStruct 1 yL [([86; 115], VSlice 0 yty [VInt KInt32 1; VInt KInt32 (-2)])].
+Example C01_graph_list_nonvacuous :
+  sgv ynm yF yte ytm (fun _ => yL) (TPtr (TStruct yL)) yv /\
+  exists st', write_data yv (estate0 ynm) = Ok st' /\ small st' /\
+    exists dst', decode yte ytm (ebytes st') = Ok (DPtr 0 yL, [], dst') /\
+      dheap dst' = [RObj yL (Some [([86; 115], DSlice (TInt KInt32) [DInt KInt32 1; DInt KInt32 (-2)])]);
+                    RList (Some (DSlice (TInt KInt32) [DInt KInt32 1; DInt KInt32 (-2)]))].
+Proof.
+  split.
+  - eapply (sg_struct ynm yF yte ytm (fun _ => yL) 1 yL _ yL ygfs); try reflexivity; try lia.
+    + split; [repeat constructor; cbn; intuition discriminate|]. intros n t [H|[]]; inversion H; subst; reflexivity.
+    + repeat constructor; unfold valid_rune; lia.
+    + repeat constructor; unfold valid_rune; lia.
+    + cbn; lia.
+    + constructor; [|constructor]. cbn [snd].
+      eapply (sg_slice ynm yF yte ytm (fun _ => yL) yty _ (TInt KInt32) yltn); try reflexivity; try discriminate; try (cbn; lia).
+      * repeat constructor; unfold valid_rune; lia.
+      * repeat constructor; unfold in_kind; cbn; lia.
   - eexists. split; [vm_compute; reflexivity|]. split; [split; vm_compute; discriminate|].
     eexists. split; vm_compute; reflexivity.
 Qed.
